@@ -10,6 +10,7 @@ import (
 	"os"
 	"path"
 	"path/filepath"
+	"slices"
 	"sort"
 	"strings"
 	"sync"
@@ -257,7 +258,11 @@ func Run(r *vf.Run) {
 					writeAll(root, b.files)
 					roots[si] = root
 				}
-				results[i] = onePlacement(r, rng, bin, cache, root, si, b.files, b.problems)
+				forced := -1
+				if i < 16 {
+					forced = i
+				}
+				results[i] = onePlacement(r, rng, forced, bin, cache, root, si, b.files, b.problems)
 			}
 		}(w)
 	}
@@ -307,7 +312,7 @@ func writeAll(root string, files map[string]string) {
 	}
 }
 
-func onePlacement(r *vf.Run, rng *rand.Rand, bin, cache, root string, si int, files map[string]string, baseProblems map[bool][]pkey) (res struct {
+func onePlacement(r *vf.Run, rng *rand.Rand, forced int, bin, cache, root string, si int, files map[string]string, baseProblems map[bool][]pkey) (res struct {
 	p        placement
 	si       int
 	viol     []func()
@@ -364,6 +369,23 @@ func onePlacement(r *vf.Run, rng *rand.Rand, bin, cache, root string, si int, fi
 			p.line = good[rng.IntN(len(good))]
 		}
 	}
+	if forced >= 0 && (forced/4)%2 == 0 {
+		// systematic part of the workload: a line that carries a U1000 problem
+		var us []pkey
+		for _, k := range old {
+			if k.code == "U1000" {
+				us = append(us, k)
+			}
+		}
+		for t := 0; t < len(us); t++ {
+			k := us[(forced/8+t)%len(us)]
+			c2, i2 := candidateLines(files[k.file])
+			if slices.Contains(c2, k.line) {
+				p.file, src, cands, indents, p.line = k.file, files[k.file], c2, i2, k.line
+				break
+			}
+		}
+	}
 	p.indent = indents[p.line]
 	declMu.Lock()
 	isDecl := declLines[src][p.line]
@@ -413,6 +435,17 @@ func onePlacement(r *vf.Run, rng *rand.Rand, bin, cache, root string, si int, fi
 		p.listKind, p.checks = "several", pick(here, "SA4000")+","+pick(elsewhere, "S1002")+",SA9999"
 	default:
 		p.listKind, p.checks = "unknown", "XX9999"
+	}
+	if forced >= 0 {
+		// the first placements enumerate {ignore, file-ignore} x {without, with reason} x
+		// {U1000 on the line of an unused object, the check reported on the line}
+		p.kind = []string{"ignore", "file-ignore"}[forced%2]
+		p.reason = (forced/2)%2 == 1
+		if (forced/4)%2 == 0 {
+			p.listKind, p.checks = "U1000", "U1000"
+		} else {
+			p.listKind, p.checks = "exact-here", pick(here, "SA4000")
+		}
 	}
 	res.p = p
 
